@@ -170,7 +170,7 @@ def damage_variants(rng, blob, meta, tier):
 
 
 def main(tier):
-    chk = core.Check(PROP, 'exploration', tier)
+    chk = core.Check(PROP, 'fault_enumeration', tier)
     runner = core.Runner('asan')
     base = os.path.join(core.BUILD_ROOT, 'tmp', 'c17_sandbox_%d' % os.getpid())
     shutil.rmtree(base, ignore_errors=True)
